@@ -1,6 +1,6 @@
 """Unit `transport`: Transport::asyncWriteImpl and its helpers (src/common/transport.cc, include/pistache/transport.h).  C06 / C07."""
 NAME = 'transport'
-TUS = [('src/common/transport.cc', 'Pistache')]
+TUS = [('src/common/transport.cc', 'Pistache'), ('src/common/stream.cc', 'Pistache')]
 PRELUDE = r'''
 #include "vs_transport.h"
 int vs_exc; bool g_hit_end; char vs_dummy_char; unsigned char vs_dummy_byte; int vs_errno;
@@ -42,6 +42,10 @@ struct vs_wq { struct Pistache_Tcp_Transport_WriteEntry front; size_t n; };
 /* where the next byte of this holder comes from */
 #define BH_NEXT(b) ((b)->type == BH_RAW ? (b)->_raw.data_.off + (size_t)(b)->offset_ : (size_t)(b)->offset_)
 #define WE_INV(e) (BH_INV(&(e)->buffer) && (e)->deferred.valid)
+/* the same predicates as functions, for requires/ensures clauses (macros duplicating dereferences are ruinous, rule 11) */
+static inline bool bh_inv(const struct Pistache_Tcp_Transport_BufferHolder *b) { return BH_INV(b); }
+static inline size_t bh_next(const struct Pistache_Tcp_Transport_BufferHolder *b) { return BH_NEXT(b); }
+static inline bool we_inv(const struct Pistache_Tcp_Transport_WriteEntry *e) { return bh_inv(&e->buffer) && e->deferred.valid; }
 static inline struct vs_wmap *vs_wmap_find(struct vs_wmap *m, int fd) { (void)fd; return m->present ? m : (struct vs_wmap *)0; }
 static inline size_t vs_wmap_erase(struct vs_wmap *m, int fd) { (void)fd; size_t r = m->present; m->present = 0; return r; }
 static inline bool vs_wq_empty(const struct vs_wq *q) { return q->n == 0; }
@@ -75,6 +79,8 @@ EXCEPTIONS = {'std::runtime_error': 'VS_EXC_RUNTIME_ERROR', 'std::range_error': 
 ENUMS = ['Pistache::Polling::NotifyOn', 'Pistache::Tcp::Transport::BufferHolder::Type']
 RECORD_ALIASES = {'__gnu_cxx::__alloc_traits<std::allocator<Pistache::Tcp::Transport::WriteEntry>, Pistache::Tcp::Transport::WriteEntry>::value_type': 'Pistache::Tcp::Transport::WriteEntry'}
 DEFAULT_RULE = True
+ASSUME_PURE = ['Pistache::Aio::Handler::']
+ASSUME_NOTHROW = ['Pistache::Aio::Handler::', 'Pistache::Error::']
 ASSUME_PISTACHE = ['Pistache::Aio::', 'Pistache::Error::', 'Pistache::operator|', 'Pistache::Flags', 'Pistache::Async::', 'ctor:Pistache::']
 OPAQUE_UNKNOWN = True
 OPAQUE_ANY = True     # the Transport object has many members this unit never touches (queues, timers, peers): all opaque
@@ -105,10 +111,12 @@ FUNCTIONS = [
         ensures g_send_calls == OLD(g_send_calls) + 1
         ensures IFF(g_eagain_seen, OLD(g_eagain_seen) || (RET == -1 && vs_errno == VS_EAGAIN))
         ensures g_sent_total == OLD(g_sent_total) + (RET > 0 ? (size_t)RET : 0)"""},
-    {'q': 'Pistache::Tcp::Transport::asyncWriteImpl', 'hoist_all': True, 'contract': """
+    {'q': 'Pistache::Tcp::Transport::asyncWriteImpl', 'hoist_all': True,
+     # ghost aliases (never reassigned): invariants over Q/M cost one dereference instead of a chain through `this`
+     'prologue': 'struct vs_wq *const Q = this->toWrite.q; struct vs_wmap *const M = &this->toWrite;', 'contract': """
         requires WIRE_PRE && FRESH(this, sizeof(*this)) && FRESH(this->toWrite.q, sizeof(*this->toWrite.q)) && this->toWrite.q->n < WIRE_MAX
-        requires (this->toWrite.present && this->toWrite.q->n > 0) ==> (WE_INV(&this->toWrite.q->front) && this->toWrite.q->front.deferred.is_first
-                  && g_expect_off == BH_NEXT(&this->toWrite.q->front.buffer) && g_first_full == this->toWrite.q->front.buffer.size_)
+        requires (this->toWrite.present && this->toWrite.q->n > 0) ==> (we_inv(&this->toWrite.q->front) && this->toWrite.q->front.deferred.is_first
+                  && g_expect_off == bh_next(&this->toWrite.q->front.buffer) && g_first_full == this->toWrite.q->front.buffer.size_)
         requires !g_eagain_seen && !g_lock_held && g_send_after_eagain == 0 && g_first_settled == 0 && !g_first_resolved && vs_exc == 0
         assigns this->toWrite.present, *this->toWrite.q, vs_errno, vs_exc, g_eagain_seen, g_send_after_eagain, g_sent_total, g_send_calls, g_expect_off,
                 g_write_interest, g_lock_held, g_first_settled, g_first_resolved, g_first_value, g_other_settled
@@ -121,25 +129,25 @@ FUNCTIONS = [
         ensures g_first_settled <= 1
         ensures g_first_resolved ==> g_first_value == (long)g_first_full
         # on would-block the unsent tail stays at the front of the queue with its promise
-        ensures (g_eagain_seen && OLD(this->toWrite.present) && OLD(this->toWrite.q->n) > 0) ==> (this->toWrite.present && this->toWrite.q->n > 0 && WE_INV(&this->toWrite.q->front))""",
+        ensures (g_eagain_seen && OLD(this->toWrite.present) && OLD(this->toWrite.q->n) > 0) ==> (this->toWrite.present && this->toWrite.q->n > 0 && we_inv(&this->toWrite.q->front))""",
      'loops': ["""
         assigns stop, this->toWrite.present, *this->toWrite.q, vs_errno, vs_exc, g_eagain_seen, g_send_after_eagain, g_sent_total, g_send_calls, g_expect_off,
                 g_write_interest, g_lock_held, g_first_settled, g_first_resolved, g_first_value, g_other_settled, $HOISTED
-        invariant !g_lock_held && vs_exc == 0 && g_send_after_eagain == 0 && (g_eagain_seen ==> (g_write_interest && stop)) && this->toWrite.q->n < WIRE_MAX
-        invariant (this->toWrite.present && this->toWrite.q->n > 0 && !stop) ==> (WE_INV(&this->toWrite.q->front) && g_expect_off == BH_NEXT(&this->toWrite.q->front.buffer))
-        invariant (this->toWrite.present && this->toWrite.q->n > 0 && g_eagain_seen) ==> WE_INV(&this->toWrite.q->front)
+        invariant !g_lock_held && vs_exc == 0 && g_send_after_eagain == 0 && (g_eagain_seen ==> (g_write_interest && stop)) && Q->n < WIRE_MAX
+        invariant (M->present && Q->n > 0 && (!stop || g_eagain_seen)) ==> (Q->front.deferred.valid && BH_INV(&Q->front.buffer))
+        invariant (M->present && Q->n > 0 && !stop) ==> g_expect_off == BH_NEXT(&Q->front.buffer)
         invariant g_first_settled <= 1 && (g_first_resolved ==> g_first_value == (long)g_first_full)
-        invariant (this->toWrite.present && this->toWrite.q->n > 0 && this->toWrite.q->front.deferred.is_first) ==> (g_first_settled == 0 && this->toWrite.q->front.buffer.size_ == g_first_full)
-        invariant g_eagain_seen ==> (this->toWrite.present && this->toWrite.q->n > 0)
-        decreases (stop ? 0 : 1) + (this->toWrite.present ? this->toWrite.q->n : 0)""", """
+        invariant (M->present && Q->n > 0 && Q->front.deferred.is_first) ==> (g_first_settled == 0 && Q->front.buffer.size_ == g_first_full)
+        invariant g_eagain_seen ==> (M->present && Q->n > 0)
+        decreases (stop ? 0 : 1) + (M->present ? Q->n : 0)""", """
         assigns stop, this->toWrite.present, *this->toWrite.q, vs_errno, vs_exc, g_eagain_seen, g_send_after_eagain, g_sent_total, g_send_calls, g_expect_off,
                 g_write_interest, g_lock_held, g_first_settled, g_first_resolved, g_first_value, g_other_settled, totalWritten, lock, deferred, $HOISTED
-        invariant totalWritten <= buffer->size_ && g_lock_held && lock.owns && BH_INV(buffer) && this->toWrite.present && this->toWrite.q->n > 0 && this->toWrite.q->n < WIRE_MAX
-        invariant !stop && !g_eagain_seen && g_send_after_eagain == 0 && deferred.valid && vs_exc == 0
-        invariant g_expect_off == (buffer->type == BH_RAW ? buffer->_raw.data_.off + totalWritten : totalWritten)
+        invariant totalWritten <= Q->front.buffer.size_ && g_lock_held && lock.owns && BH_INV(&Q->front.buffer) && M->present && Q->n > 0 && Q->n < WIRE_MAX
+        invariant !stop && !g_eagain_seen && g_send_after_eagain == 0 && deferred.valid && vs_exc == 0 && Q->n == LOOP_ENTRY(Q->n)
+        invariant g_expect_off == (Q->front.buffer.type == BH_RAW ? Q->front.buffer._raw.data_.off + totalWritten : totalWritten)
         invariant g_first_settled <= 1 && (g_first_resolved ==> g_first_value == (long)g_first_full)
-        invariant deferred.is_first ==> (g_first_settled == 0 && buffer->size_ == g_first_full)
-        decreases buffer->size_ - totalWritten"""]},
+        invariant deferred.is_first ==> (g_first_settled == 0 && Q->front.buffer.size_ == g_first_full)
+        decreases Q->front.buffer.size_ - totalWritten"""]},
     {'q': 'Pistache::Tcp::Transport::asyncWriteImpl::cleanUp', 'lambda': True},
 ]
 PROOFS = [
